@@ -53,9 +53,9 @@ TARGETS = {
             (F, "__array_ufunc__"), (F, "is_same_vectorspace")],
     "C04": [(OPS, "_1d_diff"), (OPS, "_split_array_on_idx"), (OPS, "_split_diff_combine"), (F, "diff"), (F, "pad")],
     "C05": [(F, "grad"), (F, "div"), (F, "curl"), (F, "laplace"), (F, "_r_dim_mapping"), (F, "vdim_mapping#2"), (F, "vdims#2")],
-    "C06": [(F, "integrate"), (F, "mean"), (OPS, "integrate"), (M, "dV"), (M, "sel")],
+    "C06": [(F, "integrate"), (F, "mean"), (OPS, "integrate"), (M, "dV")],
     "C07": [(M, "sel"), (M, "_sel_convert_input"), (F, "sel"), (M, "__getitem__"), (F, "__getitem__"), (M, "region2slices"),
-            (F, "pad"), (M, "pad"), (F, "resample")],
+            (F, "pad"), (M, "pad"), (F, "resample"), (R, "__contains__")],
     "C08": [(F, "valid#2"), (F, "_valid_as_field"), (F, "_apply_operator"), (F, "dot"), (F, "cross"), (F, "angle"),
             (F, "__lshift__"), (F, "pad"), (F, "sel"), (F, "resample"), (F, "__getitem__"), (F, "rotate90"), (F, "orientation"),
             (F, "norm#1"), (F, "__getattr__"), (F, "real"), (F, "imag"), (H5, "_h5_load_field"), (H5, "_h5_save_data"),
@@ -69,7 +69,7 @@ TARGETS = {
     "C13": [(R, "scale"), (R, "translate"), (R, "rotate90"), (M, "scale"), (M, "translate"), (M, "rotate90"), (R, "__init__"),
             (F, "rotate90")],
     "C14": [(M, "subregions#2"), (M, "is_aligned"), (M, "sel"), (M, "scale"), (M, "translate"), (M, "rotate90"),
-            (M, "__getitem__"), (IO, "save_subregions"), (IO, "load_subregions"), (H5, "_h5_save#2"), (H5, "_h5_load#2")],
+            (M, "__getitem__"), (IO, "save_subregions"), (IO, "load_subregions"), (H5, "_h5_save#2"), (H5, "_h5_load#2"), (R, "__contains__")],
     "C15": [(F, "norm#1"), (F, "norm#2"), (F, "orientation"), (F, "__init__"), (F, "update_field_values")],
     "C16": [(F, "to_vtk"), (VTK, "_to_vtk"), (VTK, "_from_vtk"), (VTK, "_from_vtk_legacy")],
     "C17": [(F, "to_xarray"), (F, "from_xarray")],
